@@ -50,6 +50,10 @@ def build(rng):
             tok[0] += 1; t = tok[0]
             x, tgt, descr = pic(rels) if rng.random() < 0.8 else ('', None, None)
             if x: pics.append((t, tgt, descr))
+            # the same picture again, and other pictures, back to back in the same paragraph (a rating made of stars, an icon row)
+            while x and rng.random() < 0.35:
+                x2, tgt2, descr2 = (x[:x.index('</w:r>') + 6], tgt, descr) if rng.random() < 0.6 else pic(rels)
+                x += x2; pics.append((t, tgt2, descr2))
             out += p(r(f'«{t}»before '), x, r(' after'))
         return out
     drels = []; body = part_body(drels)
@@ -122,15 +126,18 @@ def one(ctx, data, related, pics, tmpdir, rng):
                 ctx.fail('the image folder does not hold exactly the image files with identical bytes', {**case, 'image_folder': mode}, {'written': after, 'expected': wantfiles}); good = False
         if mode != 'save_images':
             allruns = [rs for v in runs.values() for rs in v]
-            for t, tgt, descr in pics:
+            for t in sorted({t for t, _, _ in pics}):
                 par = next((rs for rs in allruns if any(f'«{t}»' in x for x in rs)), None)
                 if par is None: continue
-                if tgt is not None:
-                    if f'----{tgt}----' not in par: ctx.fail('a picture is not represented in place by ----TARGET----', {**case, 'token': t}, par); good = False
-                    elif descr and (f'----Image alt text---->{descr}<' not in par or par.index(f'----Image alt text---->{descr}<') > par.index(f'----{tgt}----')):
-                        ctx.fail('the alt-text marker does not precede the picture placeholder', {**case, 'token': t}, par); good = False
-                elif any(x.startswith('----') and 'alt text' not in x for x in par):
-                    ctx.fail('a picture whose relationship cannot be resolved is not skipped', {**case, 'token': t}, par); good = False
+                expect = []
+                for tt, tgt, descr in pics:
+                    if tt != t: continue
+                    if descr: expect.append(f'----Image alt text---->{descr}<')
+                    if tgt is not None: expect.append(f'----{tgt}----')
+                seen = [x for x in par if x.startswith('----')]
+                if seen != expect:
+                    ctx.fail('the pictures of a paragraph are not represented in place, in order, by (alt-text marker,) ----TARGET---- each; unresolvable ones skipped',
+                             {**case, 'token': t}, {'placeholders': seen, 'expected': expect, 'paragraph': par}); good = False
         shutil.rmtree(work, ignore_errors=True)
     if good: ctx.validated += 1
     if len(related) >= 2 and len(pics) >= 2: ctx.nontrivial(jhash(jhash(data.hex())))
